@@ -9,6 +9,7 @@ import (
 	"net/http"
 	"net/http/httptest"
 	"os"
+	"path/filepath"
 	"strings"
 
 	"github.com/cinar/indicator/v2/asset"
@@ -215,7 +216,7 @@ func H_C19_Csv(shape, hdr, nrec, nf int) {
 // ---- JSON ----
 
 type jsonPlan struct {
-	open   int // 0 '[' ; 1 another token ; 2 error
+	open   int // 0 '[' ; 1 another delimiter ; 2 error ; 3 a scalar token (string) that is the whole document
 	values []bool
 	close  int // 0 ']' ; 1 another token ; 2 error (truncated)
 }
@@ -227,6 +228,8 @@ func jsonText(p jsonPlan) string {
 		sb += "["
 	case 1:
 		sb += "{"
+	case 3:
+		return "\"Not found.\"" // a top-level scalar: the whole document
 	default:
 		sb += "@"
 	}
@@ -261,8 +264,13 @@ func installJSONStubs(p jsonPlan) {
 				return json.Delim('['), nil
 			case 1:
 				return json.Delim('{'), nil
+			case 3:
+				return "Not found.", nil
 			}
 			return nil, errors.New("invalid character")
+		}
+		if p.open == 3 {
+			return nil, io.EOF
 		}
 		switch p.close {
 		case 0:
@@ -272,7 +280,7 @@ func installJSONStubs(p jsonPlan) {
 		}
 		return nil, io.EOF
 	})
-	vrt.Stub("(*encoding/json.Decoder).More", func(d *json.Decoder) bool { return pos < len(p.values) })
+	vrt.Stub("(*encoding/json.Decoder).More", func(d *json.Decoder) bool { return p.open != 3 && pos < len(p.values) })
 	vrt.Stub("(*encoding/json.Decoder).Decode", func(d *json.Decoder, v any) error {
 		ok := p.values[pos]
 		pos++
@@ -288,7 +296,7 @@ func installJSONStubs(p jsonPlan) {
 // whether each value decodes, and the kind of the closing token (0 ']', 1 other,
 // 2 truncated) are nondeterministic stub outcomes (symbolic, explored by forking).
 func H_C19_Json(nvals int) {
-	p := jsonPlan{open: vrt.Choice("open", 3), close: vrt.Choice("close", 3)}
+	p := jsonPlan{open: vrt.Choice("open", 4), close: vrt.Choice("close", 3)}
 	good := 0
 	stopped := p.open != 0
 	for i := 0; i < nvals; i++ {
@@ -327,9 +335,9 @@ func H_C19_Tiingo(nvals int) {
 	code := vrt.Int("code")
 	vrt.Assume(code >= 200)
 	vrt.Assume(code <= 599)
-	p := jsonPlan{open: vrt.Choice("open", 3), close: vrt.Choice("close", 3)}
+	p := jsonPlan{open: vrt.Choice("open", 4), close: vrt.Choice("close", 3)}
 	good := 0
-	stopped := p.open == 2 // GetSince only needs the first token to be readable
+	stopped := p.open >= 2 // GetSince only needs the first token to be readable; a scalar is the whole document
 	for i := 0; i < nvals; i++ {
 		ok := vrt.Choice("ok", 2, i) == 1
 		p.values = append(p.values, ok)
@@ -359,14 +367,20 @@ func H_C19_Tiingo(nvals int) {
 				if p.open == 2 {
 					return nil, errors.New("invalid character")
 				}
+				if p.open == 3 {
+					return "Not found.", nil
+				}
 				return json.Delim('['), nil
+			}
+			if p.open == 3 {
+				return nil, io.EOF
 			}
 			if p.close == 0 {
 				return json.Delim(']'), nil
 			}
 			return nil, io.EOF
 		})
-		vrt.Stub("(*encoding/json.Decoder).More", func(d *json.Decoder) bool { return pos < len(p.values) })
+		vrt.Stub("(*encoding/json.Decoder).More", func(d *json.Decoder) bool { return p.open != 3 && pos < len(p.values) })
 		vrt.Stub("(*encoding/json.Decoder).Decode", func(d *json.Decoder, v any) error {
 			ok := p.values[pos]
 			pos++
@@ -399,6 +413,9 @@ func H_C19_Tiingo(nvals int) {
 		}
 		if p.close == 0 {
 			body += "]"
+		}
+		if p.open == 3 {
+			body = "\"Not found.\""
 		}
 		srv := httptest.NewServer(http.HandlerFunc(func(w http.ResponseWriter, r *http.Request) {
 			w.WriteHeader(code)
@@ -440,5 +457,78 @@ func H_C19_ReadFromFile() {
 	vrt.Assert("newcsv_ok", err == nil)
 	_, err = c.ReadFromFile(vrt.TempDir() + "/does-not-exist.csv")
 	vrt.Assert("unreadable_file_is_an_error", err != nil)
+	vrt.Reach("end")
+}
+
+// csvFile puts a CSV document (records of fields) where the real reader will find it:
+// in the virtual file system (symbolic run) or in a real temporary file (native run).
+func csvFile(dir, name string, records [][]string) string {
+	path := filepath.Join(dir, name)
+	if vrt.Symbolic() {
+		f := theVFS.create(path)
+		for _, r := range records {
+			f.records = append(f.records, append([]string(nil), r...))
+		}
+		return path
+	}
+	sb := ""
+	for _, r := range records {
+		sb += strings.Join(r, ",") + "\n"
+	}
+	_ = os.WriteFile(path, []byte(sb), 0o600)
+	return path
+}
+
+func readRows(c *helper.Csv[row3], path string) []row3 {
+	ch, err := c.ReadFromFile(path)
+	vrt.Assert("open_ok", err == nil)
+	var out []row3
+	if err == nil {
+		for r := range ch {
+			out = append(out, *r)
+		}
+	}
+	return out
+}
+
+// H_C09_Csv: one helper.Csv value reads two documents with DIFFERENT header rows, one
+// after the other; the second read must give what a fresh value gives (the column
+// mapping derived from the first header must not leak into the second read).
+// variant: 0 = the second header lacks a column, 1 = it is permuted, 2 = it has an
+// extra leading column, 3 = the first header lacks a column the second one has.
+func H_C09_Csv(variant int) {
+	theVFS = &vfsT{files: map[string]*vfile{}}
+	installOSStubs(theVFS)
+	dir := vrt.TempDir()
+	first := [][]string{{"A", "N", "Bee"}, {"a1", "5", "b1"}}
+	var second [][]string
+	switch variant {
+	case 0:
+		second = [][]string{{"A", "Bee"}, {"a2", "b2"}, {"a3", "b3"}}
+	case 1:
+		second = [][]string{{"Bee", "N", "A"}, {"b2", "6", "a2"}}
+	case 2:
+		second = [][]string{{"X", "A", "N", "Bee"}, {"x", "a2", "6", "b2"}}
+	default:
+		first = [][]string{{"A", "Bee"}, {"a1", "b1"}}
+		second = [][]string{{"N", "A", "Bee"}, {"6", "a2", "b2"}}
+	}
+	p1, p2 := csvFile(dir, "one.csv", first), csvFile(dir, "two.csv", second)
+	shared, err := helper.NewCsv[row3](true)
+	vrt.Assert("newcsv_ok", err == nil)
+	_ = readRows(shared, p1)
+	again := readRows(shared, p2)
+	fresh, err := helper.NewCsv[row3](true)
+	vrt.Assert("newcsv_ok", err == nil)
+	want := readRows(fresh, p2)
+	vrt.Assert("reuse_len", len(again) == len(want))
+	vrt.Assert("fresh_reads_all", len(want) == len(second)-1)
+	for i := range want {
+		if i < len(again) {
+			vrt.AssertAt("reuse_A", i, again[i].A == want[i].A)
+			vrt.AssertAt("reuse_N", i, again[i].N == want[i].N)
+			vrt.AssertAt("reuse_B", i, again[i].B == want[i].B)
+		}
+	}
 	vrt.Reach("end")
 }
